@@ -274,6 +274,11 @@ def main(argv):
                             {"op": "wrap_lines", "kind": kind, "line_hex": hx(line), "line": line.decode("utf-8"), "width": width, "keep": keep,
                              "delims": delims, "pieces_hex": [hx(p) for p in r[0]], "withheld_hex": [hx(d) for d in r[1]], "how": how})
 
+    # ---------------- thorough: the same cases through the ASan+UBSan build of the harness
+    if not quick and impl_ok:
+        step = max(1, len(lines) // 150000)
+        asan_lines(c, "hx_wrap", lines[::step], what="(wrap_lines)")
+
     # ---------------- the theorems' own boolean predicate (extracted check_wrap) on the implementation's pieces
     if impl_ok and drv is not None:
         idx = [i for i in range(n_valid) if out[1 + i].startswith("OK ")]
@@ -420,6 +425,13 @@ def main(argv):
         mode = ["-s"] if n % 2 else []
         st, so, se = run_limited([tool, "-w", "40"] + mode + [idc], stdin=b"".join(l + b"\n" for l in ls), timeout=60)
         check_stream("at-once", ls, st, so, se, "%d lines (see mklines in checks/C07.py) | foldfilter -w 40 %s child_id.py" % (n, " ".join(mode)))
+    # one very long line (bigger than every stream buffer and pipe; thousands of pieces) between short ones
+    bigs = " ".join("w%d" % (i % 1000) + ("\u00e9" if i % 5 == 0 else "") for i in range(60000))
+    bigl = bigs.encode("utf-8")
+    ls = mklines(30) + [bigl, b"", bigs[: len(bigs) // 2].encode("utf-8")] + mklines(30)
+    for mode in ([], ["-s"]):
+        st, so, se = run_limited([tool, "-w", "40"] + mode + [idc], stdin=b"".join(l + b"\n" for l in ls), timeout=120)
+        check_stream("big-line" + (mode and ":-s" or ""), ls, st, so, se, "60 short lines around two lines of ~300 kB / 150 kB | foldfilter -w 40 %s child_id.py" % " ".join(mode))
     for n, cuts in ((2500, (1023, 2046)), (1100, (1022,)), (2100, (1024, 2047))):
         ls = mklines(n)
         enc = [l + b"\n" for l in ls]
